@@ -137,6 +137,11 @@ func vIntrinsic(name string) intrinsic {
 			in.capOblig, in.capExplore = int64(concInt(a[0])), int64(concInt(a[1]))
 			return nil
 		}
+	case "vunwindCut":
+		return func(in *Interp, fr *frame, a []Value) Value {
+			in.unwindCut = concInt(a[0])
+			return nil
+		}
 	case "vparam":
 		return func(in *Interp, fr *frame, a []Value) Value {
 			name, def := concStr(a[0]), concInt(a[1])
@@ -301,3 +306,5 @@ func (in *Interp) collectAllInner(p *Value, cells map[*Value]bool, maps map[*Map
 		in.collectAll(c, cells, maps, depth+1)
 	}
 }
+
+type typesVar = types.Var
